@@ -1,3 +1,4 @@
 pub mod ast;
+pub mod choose;
 pub mod model;
 pub mod prog;
